@@ -265,7 +265,7 @@ def check(case, rec):
   d = H.make_data(mjm, nworld=n)
   H.set_data(d, states)
   mjw.forward(m, d)
-  if H.overflow(d).any():
+  if H.overflow_fwd(d).any():
     rec.inconclusive += 1
     return
   mech = mechanisms(mjm)
